@@ -151,7 +151,17 @@ pub mod thread {
         // join().unwrap(): blocks until the writer thread has returned from run()
         #[verifier::external_body]
         pub fn join_unwrap(self) ensures super::joined() { unimplemented!() }
+        // whether the thread has finished right now: an arbitrary answer (it says nothing about `joined`, which is the handle being consumed by join)
+        #[verifier::external_body]
+        pub fn is_finished(&self) -> bool { unimplemented!() }
     }
+    // sleeping / yielding have no effect on anything the contracts talk about
+    #[verifier::external_body] pub fn sleep(d: super::Duration) { unimplemented!() }
+    #[verifier::external_body] pub fn yield_now() { unimplemented!() }
+}
+impl Duration {
+    #[verifier::external_body] pub fn from_millis(ms: u64) -> Duration { unimplemented!() }
+    #[verifier::external_body] pub fn from_secs(s: u64) -> Duration { unimplemented!() }
 }
 pub mod tokio { pub mod sync { pub mod oneshot {
     use vstd::prelude::*;
@@ -380,7 +390,7 @@ ITEMS = [
             unparked(self.unparker),                                                                    // OBL push_unparks
          """),
     dict(kind="fn", file=BG, impl=r"^impl Drop for BackgroundQueueJoinHandle$", name="drop",
-         rules={"R1": 2, "r12_join_unwrap": 1}, extra_rewrites=[r12_join_unwrap],
+         rules={"R1": 2, "r12_join_unwrap": 1}, extra_rewrites=[r12_join_unwrap, r10_now_ge, r13_now_plus], unpinned=["r10_now_ge", "r13_now_plus"],
          impl_header_override="impl BackgroundQueueJoinHandle",
          ensures="""
             // C05: a live handle signals shutdown, wakes the writer and waits for it; a forgotten one does nothing
